@@ -2,4 +2,4 @@ mod if_else;
 mod r#match;
 mod match_arm;
 mod set_if_else;
-pub use {if_else::IfElse, r#match::Match, set_if_else::SetIfElse};
+pub use {if_else::IfElse, r#match::Match, match_arm::MatchArm, set_if_else::SetIfElse};
